@@ -95,7 +95,7 @@ func bindResults(env *Env, res Val, fn *ssa.Function, sig *types.Signature) {
 
 // ghostAsserts: ghost assertions of the caller's contract placed before the ord-th call of short: proved here,
 // then assumed.
-func (e *Engine) ghostAsserts(fr *Frame, st *State, short string, ord int, pos token.Pos) {
+func (e *Engine) ghostAsserts(fr *Frame, st *State, short string, ord int, pos token.Pos, args []Val) {
 	if fr == nil || !fr.top || e.contract == nil || e.quiet != 0 {
 		return
 	}
@@ -106,6 +106,10 @@ func (e *Engine) ghostAsserts(fr *Frame, st *State, short string, ord int, pos t
 		}
 		if (aa.Callee == short || aa.Callee == name) && aa.N == ord {
 			aenv := e.envAt(fr, st, pos)
+			// arg0, arg1, ...: the actual arguments of the call the assertion is attached to (receiver first)
+			for k, a := range args {
+				aenv.bound[fmt.Sprintf("arg%d", k)] = a
+			}
 			goal := e.evalClause(aenv, aa.Clause)
 			e.oblige("assert", fmt.Sprintf("assert[%s#%d/%s]", name, ord, clauseName(aa.Clause, i)), st.guard, goal, pos)
 			e.assumps = append(e.assumps, Assump{T: Implies(st.guard, goal), Tag: "lemma"})
@@ -124,7 +128,7 @@ func (e *Engine) callContract(fr *Frame, st *State, callee *ssa.Function, ct *Co
 	// mean the same in both (no arithmetic: comparisons, lengths, constants, boolean structure only)
 	// (such a requires clause becomes an obligation that cannot be discharged; such an ensures clause is not assumed)
 	cross := ct.ModeSet && ct.Mode != e.ar.mode && !ct.Trusted
-	e.ghostAsserts(fr, st, short, ord, pos)
+	e.ghostAsserts(fr, st, short, ord, pos, args)
 	pre := st.clone()
 	env := e.calleeEnv(pre, pre, ct, callee, args)
 	if callee == nil {
